@@ -23,8 +23,10 @@ int icmax1_(int *n, complex *cx, int *incx)
     Purpose   
     =======   
 
-    ICMAX1 finds the index of the element whose real part has maximum   
-    absolute value.   
+    ICMAX1 finds the index of the first vector element of maximum
+    absolute value (complex modulus), as LAPACK 3.6 and later do. Using the
+    real part alone lets ?LACON pick a poor unit vector, after which its
+    estimate can drop below the one from its first step.
 
     Based on ICAMAX from Level 1 BLAS.   
     The change is to use the 'genuine' absolute value.   
@@ -78,17 +80,17 @@ int icmax1_(int *n, complex *cx, int *incx)
 /*     CODE FOR INCREMENT NOT EQUAL TO 1 */
 
     ix = 1;
-    smax = (r__1 = CX(1).r, fabs(r__1));
+    smax = c_abs(&CX(1));
     ix += *incx;
     i__1 = *n;
     for (i = 2; i <= *n; ++i) {
 	i__2 = ix;
-	if ((r__1 = CX(ix).r, fabs(r__1)) <= smax) {
+	if (c_abs(&CX(ix)) <= smax) {
 	    goto L10;
 	}
 	ret_val = i;
 	i__2 = ix;
-	smax = (r__1 = CX(ix).r, fabs(r__1));
+	smax = c_abs(&CX(ix));
 L10:
 	ix += *incx;
 /* L20: */
@@ -98,16 +100,16 @@ L10:
 /*     CODE FOR INCREMENT EQUAL TO 1 */
 
 L30:
-    smax = (r__1 = CX(1).r, fabs(r__1));
+    smax = c_abs(&CX(1));
     i__1 = *n;
     for (i = 2; i <= *n; ++i) {
 	i__2 = i;
-	if ((r__1 = CX(i).r, fabs(r__1)) <= smax) {
+	if (c_abs(&CX(i)) <= smax) {
 	    goto L40;
 	}
 	ret_val = i;
 	i__2 = i;
-	smax = (r__1 = CX(i).r, fabs(r__1));
+	smax = c_abs(&CX(i));
 L40:
 	;
     }
